@@ -95,6 +95,9 @@ func NewMachine(maxSteps, maxWork int) *Machine {
 // Output is what write/1 and nl/0 produced.
 func (m *Machine) Output() string { return m.out.String() }
 
+// SetUnknownFail makes calls of unknown procedures fail (the flag unknown = fail) instead of raising existence errors.
+func (m *Machine) SetUnknownFail(b bool) { m.flagUnknownFail = b }
+
 // STO reports whether a unification subject to occurs check was performed.
 func (m *Machine) STO() bool { return m.sto }
 
